@@ -18,6 +18,8 @@ def work(item, opts):
         case = dict(universe.boundary_battery()[item["v"]])
     elif "s" in item:
         case = dict(universe.small_population_battery()[item["s"]])
+    elif "y" in item:
+        case = dict(universe.types_battery()[item["y"]])
     elif "e" in item:
         case = universe.case_ext(item["e"])
         for k in ("mode", "workers"):
